@@ -36,8 +36,17 @@ RunningExact(p, e) == (e.ev = "step" /\ e.op = "IsRunning" /\ e.fin) => ((e.r = 
 GetWatchesCovers(p, e) == (e.ev = "step" /\ e.op = "GetWatches" /\ e.fin /\ e.r = "ok") =>
                              \A k \in DOMAIN Regs(p) : Regs(p)[k].inst = InstOf(p, e.c) => Regs(p)[k].wid \in Range(e.ra)
 \* a start request that found a watch's informer inactive (re-)establishes the watch
-Reestablish(e) == (e.ev = "step" /\ e.op = "StartWatches" /\ e.fin /\ e.r = "ok" /\ e.seg > 1 /\ e.inst # 0) =>
+Reestablish(e) == (e.ev = "step" /\ e.op = "StartWatches" /\ e.fin /\ e.r = "ok" /\ e.seg > 1 /\ e.inst # 0 /\ ~e.overlapped) =>
                      \A w \in Range(e.ra) : (w \notin Range(e.snapshot) /\ e.inst \notin Range(e.post.stopped)) => Live(e, e.inst, w) # {}
+\* ... and so does any start request for a watch that had no live event handler when the request began - however the
+\* handler was lost.  (Not judged for operations that an atomicity probe made overlap with another operation: the
+\* recorded state is then the state after both.)
+ReestablishLost(e) == (e.ev = "step" /\ e.op = "StartWatches" /\ e.fin /\ e.r = "ok" /\ e.seg > 1 /\ e.inst # 0 /\ ~e.overlapped
+                       /\ e.inst \notin Range(e.post.stopped)) =>
+                        \A w \in Range(e.lost) : Live(e, e.inst, w) # {}
+\* the tracking cache reports a kind active only while the cache has an informer for it (InformerTrackingCache.active:
+\* "kinds with a started informer") - otherwise a lost watch of that kind could never be re-established
+ActiveMeansInformer(e) == Range(e.post.active) \subseteq Range(e.post.informers)
 \* after every controller was stopped (end of a stress run) every instance ever started is cancelled
 AllStopped(e) == (e.ev = "quiescent" /\ e.op = "stopall") => Cardinality(Range(e.post.cancelled)) = e.post.ninst
 \* no operation hangs
@@ -52,6 +61,8 @@ Check(i) ==
   /\ (GcOnlyComposed(e) \/ Viol("GcOnlyUnused.NotComposed", i))
   /\ (GcOnlyUnreferenced(e) \/ Viol("GcOnlyUnused.Referenced", i))
   /\ (Reestablish(e) \/ Viol("Reestablish", i))
+  /\ (ReestablishLost(e) \/ Viol("Reestablish.Lost", i))
+  /\ (ActiveMeansInformer(e) \/ Viol("Reestablish.ActiveWithoutInformer", i))
   /\ (AllStopped(e) \/ Viol("StopClean.NotCancelled", i))
   /\ (NoDeadlock(e) \/ Viol("NoDeadlock", i))
   /\ (e.ev = "reset" \/ i = 1 \/
